@@ -633,6 +633,34 @@ mut("ok-flush-schedule-first", "benign", [], "flush schedules before pushing",
     [ed(I, """        self.push_to_global(guard);
         self.schedule_collection();""", """        self.schedule_collection();
         self.push_to_global(guard);""")])
+mut("alloc-range-rc-new-zero", "break", ["C10", "C04"], "Rc::new allocates with an initial strong count of 0",
+    [ed(S, "        let ptr = RcInner::alloc(obj, 1);", "        let ptr = RcInner::alloc(obj, 0);")],
+    ["CW-ALLOC-RANGE", "OWN-BALANCE", "CW-ALLOC-INIT"])
+mut("own-prim-into-raw-drops", "break", ["C08", "C01"], "Rc::into_raw no longer forgets self (the share is released although the raw pointer is handed on)",
+    [ed(S, """        let new_ptr = self.ptr;
+        // Skip decrementing the ref count.
+        forget(self);
+        new_ptr""", """        let new_ptr = self.ptr;
+        new_ptr""")], ["OWN-PRIMITIVES", "OWN-BALANCE"])
+mut("own-prim-weak-into-raw-tag", "break", ["C09"], "Weak::into_raw returns the pointer without its tag",
+    [ed(W, """    pub(crate) fn into_raw(self) -> Raw<T> {
+        let new_ptr = self.ptr;""", """    pub(crate) fn into_raw(self) -> Raw<T> {
+        let new_ptr = self.ptr.with_tag(0);""")], ["OWN-PRIMITIVES", "OWN-PROVENANCE"])
+# ---- tags are part of the cell's value (C08/C09): every path that moves a word keeps its low tag
+mut("tag-load-strips", "break", ["C08"], "AtomicRc::load returns the pointer without its tag",
+    [ed(S, "        Snapshot::from_raw(self.link.load(order), guard)", "        Snapshot::from_raw(self.link.load(order).with_tag(0), guard)")],
+    ["OWN-PROVENANCE", "LINK-TAG"])
+mut("tag-swap-strips-old", "break", ["C08"], "AtomicRc::swap returns the previous pointer without its tag",
+    [ed(S, """        let old_ptr = self.link.swap(new_ptr.with_timestamp(), order);
+        Rc::from_raw(old_ptr)""", """        let old_ptr = self.link.swap(new_ptr.with_timestamp(), order);
+        Rc::from_raw(old_ptr.with_tag(0))""")], ["OWN-PROVENANCE", "LINK-TAG"])
+mut("tag-swap-strips-new", "break", ["C08"], "AtomicRc::swap stores the new pointer without its tag",
+    [ed(S, """        let old_ptr = self.link.swap(new_ptr.with_timestamp(), order);
+        Rc::from_raw(old_ptr)""", """        let old_ptr = self.link.swap(new_ptr.with_tag(0).with_timestamp(), order);
+        Rc::from_raw(old_ptr)""")], ["LINK-STAMP", "LINK-TAG", "OWN-PROVENANCE"])
+mut("tag-weak-load-strips", "break", ["C09"], "AtomicWeak::load returns the pointer without its tag",
+    [ed(W, "        WeakSnapshot::from_raw(self.link.load(order), guard)", "        WeakSnapshot::from_raw(self.link.load(order).with_tag(0), guard)")],
+    ["OWN-PROVENANCE", "LINK-TAG"])
 mut("rec-collect-reentrant", "break", ["C07"], "unpin collects even while a collection is running (flag not tested)",
     [ed(I, "if guard_count == 1 && !self.collecting.get() {", "if guard_count == 1 {")], ["REC-COLLECT-REENTRY"])
 mut("rec-collecting-cleared-in-schedule", "break", ["C07"], "schedule_collection clears the collecting flag",
